@@ -23,7 +23,7 @@ def scn(params):
             out["stats"]["server_died"] = 1
             out["sets"]["deaths"] = {h}
             out["inconclusive"] = "server-" + h.split(":")[0]     # C05 judges crashes
-        v, st, kinds = authmon.mon_c03(k, H.domain, H.password, H.up_frames)
+        v, st, kinds = authmon.mon_c03(k, H.domain, H.password, H.up_frames, check_ip=not cfg["check_ip_off"])
         out["stats"].update(st)
         out["evaluations"] = sum(1 for ev in k.log if ev[1] == "recv" and ev[2] == "srv")
         for (key, what, wit) in v[:3]:
